@@ -27,7 +27,8 @@ P["C05"] = dict(
     claimed=True,
     technique="static analysis: exact rational identities between the Krueger, rectifying and conformal series tables",
     decides=["T-SERIES-CROSS: TM.fwd = RECT.fwd o CONF.inv and TM.inv = CONF.fwd o RECT.inv exactly to n^6 "
-             "(northing on the central meridian is the scaled meridian arc)"],
+             "(northing on the central meridian is the scaled meridian arc)",
+             "R-SIGN-SLICE: laea's polar aspect selection depends on the sign of lat_0 (all aspects reachable)"],
     not_decided=["conformality, equal-area and true-scale identities (differential statements over R^2)"],
     level="Decides two necessary table identities of the transverse Mercator geometry; the differential geometry "
           "of the projections is not decidable statically and is not claimed.",
@@ -96,6 +97,8 @@ P["C10"] = dict(
     decides=["R-COUNT-OR-NAN: on every path through one iteration of every per-tuple loop the tuple is (written or "
              "passed) and counted once, or overwritten with NaN and not counted",
              "R-EARLY-RETURN: every 'parameter missing => return 0' exit of an InnerOp is dead (key guaranteed)",
+             "R-SIBLING-GUARD: a domain limit guarded forward and inverse is tested on |x| in both or in neither",
+             "R-PIPE-MIN / R-UNDERFLOW-GUARD: a pipeline reports the minimum over its steps; stack underflow stomps and reports 0",
              "R-DISPATCH-EXHAUSTIVE: every stored dispatch literal has an arm (no live default arm returning 0)",
              "R-ELEMENT-PRESERVE: for plane / 3D / single-element operators every written tuple keeps the elements "
              "the operator does not work on as copies of the same element of the tuple read"],
@@ -196,6 +199,25 @@ P["C03"] = dict(
     level="Decides the interpreter's structure (order, duality, tally, modifier plumbing) on all paths; the "
           "tokenizer's string rewriting is not decided.",
     design_ref="DESIGN.md section 3, C03",
+)
+
+P["C13"] = dict(
+    claimed=True,
+    technique="static analysis: abstract interpretation of the value graph in a unit domain (deg/rad) and an additive "
+              "polarity domain for the false origin; affine extraction of the UTM constants; sign-slice of aspect selection",
+    decides=["R-UNIT-TYPESTATE: in the ten plane projections every degree-valued parameter (lat_*, lon_*, latc, lonc, "
+             "alpha, gamma_c, lat_ts) is converted to radians exactly once before it meets arithmetic with coordinates, "
+             "trigonometric or ellipsoid functions; parameters the constructor re-stores in radians are not converted again",
+             "R-FALSE-ORIGIN: forward, x_0/y_0 enter the written easting/northing with additive polarity exactly +1 "
+             "(through stored intermediates such as tmerc's zb); inverse, every use is `input - origin`",
+             "R-UTM-CONSTANTS: both utm constructors set k_0=0.9996, lon_0=6*zone-183, lat_0=0, x_0=500000, y_0=0 / "
+             "10000000 under south, zone in 1..=60", "R-NOOP-ALIAS: noop aliases write nothing and return len()",
+             "R-SIGN-SLICE: north/south aspect selection depends on the sign of the latitude parameter"],
+    not_decided=["k_0 linearity", "lat_ts == corresponding k_0", "1SP == 2SP lcc", "merc == webmerc on a sphere",
+                 "scaling with the semi-major axis"],
+    level="Decides the unit, false-origin, UTM-constant and alias conventions structurally on all paths; the "
+          "numerical equivalences between parameterisations are not decided.",
+    design_ref="DESIGN.md section 3, C13",
 )
 
 NA = {
